@@ -10,6 +10,7 @@ from common import cq_bool, cq_list, cq_nat, cq_opt, cq_Q, letter_code
 import props.c02 as c02
 
 ID = "C20"
+THOROUGH_ROUNDS = 4      # rounds of generate() in the thorough tier (new random draws each round)
 COQ_MODULE = "Corr.C20"
 SHARD = 80
 RULE = ("Sankey: seeded random systems (graphs of C02, flows over ordered dimension subsets, non-integral values) x slice "
